@@ -5,6 +5,9 @@ HERE = os.path.dirname(os.path.dirname(os.path.abspath(__file__)))
 ALL = ["C%02d" % i for i in range(1, 21)]
 
 CHECKS = {
+ "C13": dict(cat="exploration", tech="twin differential monitor (live server over real loopback TCP + client in one process vs a local twin of the server) and an exhaustive stream-fragmentation monitor on the real stream_recv_msg fed through a real asyncio.StreamReader",
+   text="Generated sequences of remote operations (f(\"expr\"), f(:name,args), proxy calls, remote dictionary set/get, symbol fetch, :_ of remote results) over the transportable universe run against a live server and are mirrored on a twin interpreter; client-side results must equal the twin's. Separately, for sets of one to three consecutive frames every cut of the byte stream into up to three reads (exhaustive below 120 bytes) is fed to the real reader: messages must come out intact, in order, and never before their last byte arrived. Held on what was observed.",
+   note="one IPC server per process (module singleton); functions travel as proxies by design and are not compared; the harness reconnects after a server-side failure tore the connection down (C14's subject).", ref="DESIGN.md §4 C13"),
  "C19": dict(cat="exploration", tech="model-based history monitor: Klong-level results of .table/.insert/t?col/#t/.schema/.index/.rindex/add-column/db(sql) compared step by step with a list-of-rows model",
    text="Generated histories (create from columns, single and batch inserts, column reads, counts, index on one or two columns with unique keys, re-insert of existing keys, index drop, added column, select/count through .db, .schema) over integer, real and string columns run against the real Table/Database; each observation is compared with a model in which an unindexed table keeps insertion order and an indexed table keeps the last row per key ordered by key, with buffering invisible. Held on the histories observed.",
    note="index columns unique before indexing; values compared with Klong match; a one-row SQL result may be squeezed.", ref="DESIGN.md §4 C19"),
